@@ -389,6 +389,35 @@ def check_graph(ctx, A, directed, tag):
                                   "violates its unit-weight relation",
                                   dict(key, got=np.asarray(g).tolist(),
                                        want=np.asarray(w).tolist()), {})
+        # shortest-path betweenness restricted to source / target sets (the
+        # library's own BFS kernel, not igraph): pair-dependency definition
+        if not directed and n >= 2:
+            D = np.asarray(want["path_lengths"], float)
+            S = n_shortest(A, D)
+            picks = [(list(range(n)), list(range(n)))]
+            for _ in range(2):
+                picks.append((sorted(ctx.rng.sample(range(n),
+                                                    ctx.rng.randint(1, n))),
+                              sorted(ctx.rng.sample(range(n),
+                                                    ctx.rng.randint(1, n)))))
+            for src, tgt in picks:
+                ref = betweenness_def(A, D, S, False, src, tgt)
+                try:
+                    got = np.asarray(net.interregional_betweenness(
+                        sources=list(src), targets=list(tgt)), float)
+                except Exception as e:
+                    ctx.violation("Network.interregional_betweenness",
+                                  "raises", dict(key, sources=src,
+                                                 targets=tgt, err=str(e)),
+                                  {"kind": "exception"})
+                    break
+                if not same(got, ref):
+                    ctx.violation("Network.interregional_betweenness",
+                                  "differs from its definition",
+                                  dict(key, sources=src, targets=tgt,
+                                       got=got.tolist(), want=ref.tolist()),
+                                  {"connected": conn})
+                    break
         # spectral measures on connected undirected graphs: defining residuals
         if not directed and conn and n >= 3:
             Af = A.astype(float)
